@@ -165,12 +165,16 @@ _pb("C13", "contract-based deductive verification (pyvc) of the mover steps of t
     "Each re-attachment step keeps links consistent, moves only the punctuation token, and (verylow) the real guard expression "
     "implies the old parent keeps a child. Where the tokens end up (the three documented postconditions) is bounded only.",
     "block contracts and guard lemma proved, placement postconditions bounded; 'other'")
-_pb("C15", "contract-based deductive verification (pyvc: nested loop invariants over the assumed preorder/children contracts, heap frame on the head flag) of negra_mark_heads; bounded stand-in for the rule-based marker",
+_pb("C15", "contract-based deductive verification (pyvc) of negra_mark_heads (nested loop invariants over the preorder/children contracts, heap frame on the head flag) and of transformconst.get_headpos_by_rule (four nested loops over a symbolic rule table, parse_label contract); bounded stand-in for mark_heads_by_rules as a whole",
     "negra_mark_heads is proved for every well-formed tree: after the call every constituent below the argument has exactly the "
     "child selected by the NeGra heuristic (leftmost HD, else rightmost NK, else leftmost) marked as head and all other children "
-    "marked as non-head, the root is unmarked, and only head flags are written. mark_heads_by_rules / get_headpos_by_rule are "
-    "bounded only.",
-    "proof for negra_mark_heads (contracts of preorder/children assumed), bounded stand-in for rule-based marking; 'other'")
+    "marked as non-head, the root is unmarked, and only head flags are written. get_headpos_by_rule is proved for every rule "
+    "table, parent label and child label list: categories are compared lower-cased and through parse_label (so without "
+    "function, index or head decorations); when exactly one child's category is listed in the head rules of the parent's "
+    "category (before a rule with an empty priority list, which ends the search) that child is returned; with several listed "
+    "the result is a listed child; with none it is the last / first child as the empty rule says, else the first; an "
+    "unknown parent category gives the default. mark_heads_by_rules (preset selection, the marking loop) is bounded only.",
+    "proof for negra_mark_heads and get_headpos_by_rule, bounded stand-in for the rule-based marker as a whole; 'other'")
 
 _pb("C01", "contract-based deductive verification (pyvc) of export_parse_line (field map, v3/v4 detection, raises clauses, gf_split over the contract of parse_label); bounded stand-in (independent decoders, exhaustive bracket token-class sequences) for the readers",
     "export_parse_line is proved for every line: the six fields are the whitespace-separated columns (dummy lemma inserted for "
